@@ -70,7 +70,12 @@ theorem for_step (ih : NHAll ld fuel) :
   cases hr : evalFor ld fuel env ids e body what pos s0 with
   | ok a s => exact Out.NH_ok _ _
   | err => exact Out.NH_err _ _ _ _ _
-  | fail f s => rw [hr] at hb; exact hb
+  | fail f s =>
+    cases f with
+    | syn e => exact Out.NH_syn _ _
+    | host k => rw [hr] at hb; exact hb
+    | oof => exact Out.NH_oof _
+    | unsupported w => exact Out.NH_unsupported _ _
 
 theorem lambda_step : ∀ env a b c d, NoHost (eval ld (fuel+1) env (.lambda a b c d)) := by
   intro env a b c d
